@@ -99,16 +99,19 @@ PlainStaysPlain == \A i \in 1..Len(blocks) : ~Covered(blocks[i].f) => ~blocks[i]
 -----------------------------------------------------------------------------
 (* C12 (constant level): signing keys, contents, tampering *)
 Keys == {"k1", "k2"}
-TamperKinds == {"none", "delta-payload", "priority", "docID", "fieldName", "schemaVersion", "heads", "links",
+TamperKinds == {"none", "delta-payload", "priority", "docID", "fieldName", "schemaVersion", "heads", "links", "enc-attached",
                 "sig-value", "sig-identity", "sig-type", "sig-swapped", "sig-removed"}
+\* where the tampered block sits in what is offered to the receiver: it is the pushed head itself, or the parent of an
+\* (unsigned, hence acceptable by itself) head built on top of it - every block fetched during the sync is held to the rule
+Positions == {"head", "parent"}
 \* does the tampered block still verify under the author's key k (signature made with k over the original content)?
-ContentChanged(t) == t \in {"delta-payload", "priority", "docID", "fieldName", "schemaVersion", "heads", "links"}
+ContentChanged(t) == t \in {"delta-payload", "priority", "docID", "fieldName", "schemaVersion", "heads", "links", "enc-attached"}
 SigChanged(t) == t \in {"sig-value", "sig-identity", "sig-type", "sig-swapped"}
 Verifies(t, signer, verifier) == t \notin {"sig-removed"} /\ ~ContentChanged(t) /\ ~SigChanged(t) /\ signer = verifier
 \* receiver rule: accept iff unsigned or the attached signature verifies (with the key named in the signature block)
 Accepts(t) == t = "sig-removed" \/ (~ContentChanged(t) /\ ~SigChanged(t))
-SigCases == {[tamper |-> t, signer |-> s, verifier |-> v, verifies |-> Verifies(t, s, v), accepted |-> Accepts(t)]
-             : t \in TamperKinds, s \in Keys, v \in Keys}
+SigCases == {[tamper |-> t, pos |-> p, signer |-> s, verifier |-> v, verifies |-> Verifies(t, s, v), accepted |-> Accepts(t)]
+             : t \in TamperKinds, p \in Positions, s \in Keys, v \in Keys}
 OnlyAuthorKeyVerifies == \A c \in SigCases : c.verifies => c.signer = c.verifier /\ c.tamper = "none"
 TamperedNeverAccepted == \A c \in SigCases : (ContentChanged(c.tamper) \/ SigChanged(c.tamper)) => ~c.accepted
 ASSUME OnlyAuthorKeyVerifies /\ TamperedNeverAccepted
